@@ -54,7 +54,7 @@ ASSUMPTIONS = [
 BOUNDS = {
     "quick": {
         "layouts": "72 + 21 with a line-break look-alike (FF VT FS NEL LS PS lone-CR) in the preceding text",
-        "tails": 2,
+        "tails": "2 (blank-region variants behind the 72 plain layouts: without tail only)",
         "paths": 4,
         "html_error_template": "string path, LF documents without tail; look-alike layouts without tail: string path, and file path for the LF column-1 ones; blank-region variants only there",
         "richtraceback_and_text_error_template": "string and file paths (all four thorough)",
@@ -849,6 +849,8 @@ def run_a(tier, seed, F, sh, ns, st):
         special = layout[2].startswith("special")
         for f in F:
             for tail in tails(tier, seed):
+                if quick and tail != "" and "_gap_" in f["name"] and not special:
+                    continue  # quick: blank-region variants with a tail only behind the look-alike layouts
                 built = build_a(layout, f, tail, seed)
                 if built is None:
                     skipped += 1
